@@ -55,7 +55,16 @@ def harnesses(ctx, tier):
                           desc="string-match query `%s` through the real VM on an arbitrary sorted match list vs set semantics" % what,
                           bounds="<= 3 matches (offsets < 2^47, ascending) for $a, <= 1 for $b; all 64-bit operands incl. undefined",
                           functions=EXEC_FUNCS, stubs=EXEC_STUBS))
+    for sz, ty in ((1, "int8_t"), (2, "int16_t"), (4, "int32_t")):
+        for signed in (1, 0):
+            for be in (0, 1):
+                t = ty if signed else "u" + ty
+                fn = "read_%s_%s" % (t, "big_endian" if be else "little_endian")
+                hs.append(Harness(name="H3_" + fn, src="c04/readers.c", defines=["-DVF_READER=" + fn, "-DVF_SIZE=%d" % sz, "-DVF_SIGNED=%d" % signed, "-DVF_BE=%d" % be],
+                                  unwind=6, timeout=300, desc="%s on a symbolic 2-block layout" % fn,
+                                  bounds="2 blocks x <= 4 bytes, base 0..3, gap 0..2, offset any size_t", functions=[fn]))
     return hs
+
 
 LEVEL_TEXT = ("Bounded model checking of the real interpreter: for each opcode the solver covers every 64-bit operand value "
               "(and every expected value) against a reference semantics written from the manual; this is the right level because the "
